@@ -40,6 +40,31 @@ func Copy(v any) any {
 	}
 }
 
+// CopySpare is Copy with every array allocated with spare capacity (cap = len + 3), the way arrays of a
+// decoded JSON document usually are: code that appends to an array of the document then writes behind its end
+// instead of reallocating, which shows as soon as two results were built from the same array.
+func CopySpare(v any) any {
+	switch t := v.(type) {
+	case map[string]any:
+		m := make(map[string]any, len(t))
+		for k, x := range t {
+			m[k] = CopySpare(x)
+		}
+		return m
+	case []any:
+		if t == nil {
+			return []any(nil)
+		}
+		s := make([]any, len(t), len(t)+3)
+		for i, x := range t {
+			s[i] = CopySpare(x)
+		}
+		return s
+	default:
+		return v
+	}
+}
+
 func CopyMap(m map[string]any) map[string]any {
 	if m == nil {
 		return nil
